@@ -313,7 +313,7 @@ def evidence(ctx, recs, n, nref, nrej, q):
         "traces_validated_against_impl": n, "reference_traces_validated": nref, "events_per_kind": per_ev,
         "cases_per_family": per_kind, "rejected_lines_all_known": nrej,
         "samples": [samples[k] for k in sorted(samples)] + [{"recorded_trace": sample_trace}],
-        "rule": "TLC (AdaptorGen) enumerates: kind rw = EVERY sequence of 0..4 calls over %d calls (Header().Set/Add/Del on X-A, "
+        "rule": "TLC (AdaptorGen) enumerates: kind rw = EVERY sequence of 0..4 calls over an alphabet of %d calls (Header().Set/Add/Del on X-A, "
                 "Set-Cookie, Content-Type; WriteHeader(c); Write(p)) x {empty Response, Response that already has X-A x2, "
                 "Content-Type, Set-Cookie and a body} + %d seeded sequences of 5..9 calls over all 21 calls; kinds fwd (hertz -> "
                 "http, request parsed from wire bytes by hertz or built through the setters) and rev (net/http's parse of wire "
@@ -325,7 +325,7 @@ def evidence(ctx, recs, n, nref, nrej, q):
                 "run on httptest.ResponseRecorder and that recording validated by the same specification.  Non-trivial rw case = "
                 "sends the header and (changes Header() or sends twice); non-trivial request = repeated header names, cookies, a "
                 "body, a failing body or a path other than / and /p; distinct = as a case record without its number."
-                % (10 if q else 21, nrand, "" if q else "; thorough: the full products"),
+                % (10 if q else 17, nrand, "" if q else "; thorough: the full products"),
     })
     ctx.assumptions += [
         "what the hertz Response 'shows' is its serialized header (ResponseHeader.Header()) as net/http's http.ReadResponse "
